@@ -76,6 +76,9 @@ const (
 	ctlrunCancelPending   = 12 // a control cycle blocks for several tick periods (a tick is pending), then cancel and release at once
 	ctlrunErrLinger       = 13 // control error (as 5), then the controller stays alive for LingerMs: the hand-back must persist
 	ctlrunStallLinger     = 14 // stalled at max (as 9), then the controller stays alive for LingerMs
+	ctlrunDbGone          = 16 // the database directory disappears after regulation began (replaced by a plain file), then the context is cancelled
+	ctlrunOtherAnalysing  = 17 // parallel initialisation disabled; another controller is inside its initialisation sequence when this one is cancelled
+	ctlrunOtherAnalysingE = 18 // ... when this one hits a control error
 	ctlrunCmdLingerChild  = 15 // the curve reads a real cmd sensor whose command leaves an orphaned child holding its stdout: control error, hand-back
 )
 
@@ -134,11 +137,20 @@ type ctlrunCurve struct {
 	release chan struct{}
 	// from evaluation `at` on the curve reads this (real) sensor, as a PID curve does
 	sensor sensors.Sensor
+	// gate: once it is closed, the next evaluation is the one that fires (instead of evaluation `at`)
+	gate chan struct{}
 }
 
 func (c *ctlrunCurve) GetId() string { return "ctlrun_curve" }
 func (c *ctlrunCurve) Evaluate() (int, error) {
 	c.n++
+	if c.gate != nil && c.at == 0 {
+		select {
+		case <-c.gate:
+			c.at = c.n
+		default:
+		}
+	}
 	if c.n == c.at && c.fire != nil {
 		c.fire()
 	}
@@ -146,13 +158,13 @@ func (c *ctlrunCurve) Evaluate() (int, error) {
 		close(c.blocked)
 		<-c.release
 	}
-	if c.sensor != nil && c.n >= c.at {
+	if c.sensor != nil && c.at > 0 && c.n >= c.at {
 		if _, err := c.sensor.GetValue(); err != nil {
 			return 0, err
 		}
 		return 100, nil
 	}
-	if c.fail && c.n >= c.at {
+	if c.fail && c.at > 0 && c.n >= c.at {
 		return 0, errors.New("injected: sensor read failed")
 	}
 	if c.konst > 0 {
@@ -222,9 +234,12 @@ func ctlrunRun(ctx *Ctx, seq int, in ctlrunIn) (ctlrunObs, string, []string) {
 	if err != nil {
 		panic(err)
 	}
-	pers := &ctlrunPers{Persistence: persistence.NewPersistence(filepath.Join(dir, "fan2go.db")), scn: in.Scn}
+	dbDir := filepath.Join(dir, "db")
+	os.MkdirAll(dbDir, 0755)
+	pers := &ctlrunPers{Persistence: persistence.NewPersistence(filepath.Join(dbDir, "fan2go.db")), scn: in.Scn}
+	other := in.Scn == ctlrunOtherAnalysing || in.Scn == ctlrunOtherAnalysingE
 	inTick := in.Scn == ctlrunCancelInTick || in.Scn == ctlrunCancelPending
-	if (in.Scn >= ctlrunErrDeviceGone && in.Scn <= ctlrunCancel) || stall || inTick || in.Scn == ctlrunErrLinger || in.Scn == ctlrunCmdLingerChild {
+	if (in.Scn >= ctlrunErrDeviceGone && in.Scn <= ctlrunCancel) || stall || inTick || in.Scn == ctlrunErrLinger || in.Scn == ctlrunCmdLingerChild || in.Scn == ctlrunDbGone || other {
 		// characterised earlier: stored data exists
 		data := map[int]float64{0: 0, in.Top: 1200}
 		if stall {
@@ -251,6 +266,8 @@ func ctlrunRun(ctx *Ctx, seq int, in ctlrunIn) (ctlrunObs, string, []string) {
 	lingering, midSet := false, false
 	failRpm := false
 	nRpmReads := 0
+	bRpmPath := filepath.Join(dir, "b_fan1_input")
+	bRpmReads, holdB := 0, true
 	util.VerifWriteHook = func(path string, data []byte) (error, bool) {
 		if path != pwmPath && path != enPath {
 			return nil, false
@@ -292,6 +309,15 @@ func ctlrunRun(ctx *Ctx, seq int, in ctlrunIn) (ctlrunObs, string, []string) {
 		if gone && (path == pwmPath || path == enPath || path == rpmPath) {
 			return nil, &fs.PathError{Op: "open", Path: path, Err: syscall.ENOENT}, true
 		}
+		if other && path == bRpmPath {
+			bRpmReads++
+			if holdB { // the other fan never settles: its initialisation sequence (and the lock it holds) goes on
+				if bRpmReads%2 == 0 {
+					return []byte("5000\n"), nil, true
+				}
+				return []byte("0\n"), nil, true
+			}
+		}
 		if path == rpmPath && failRpm {
 			nRpmReads++
 			if nRpmReads > 12 { // after the fan has settled (10 polls) the measurement itself fails
@@ -303,6 +329,8 @@ func ctlrunRun(ctx *Ctx, seq int, in ctlrunIn) (ctlrunObs, string, []string) {
 	defer func() { util.VerifWriteHook, util.VerifReadHook = nil, nil }()
 	failRpm = in.Scn == ctlrunInitFails
 
+	configuration.CurrentConfig.RunFanInitializationInParallel = !other
+	defer func() { configuration.CurrentConfig.RunFanInitializationInParallel = true }()
 	cctx, cancel := context.WithCancel(context.Background())
 	defer cancel()
 	cancelRun = cancel
@@ -353,6 +381,19 @@ func ctlrunRun(ctx *Ctx, seq int, in ctlrunIn) (ctlrunObs, string, []string) {
 			}
 			close(curve.release)
 		}()
+	case ctlrunDbGone:
+		curve.fire = func() {
+			os.RemoveAll(dbDir)
+			os.WriteFile(dbDir, []byte("not a directory"), 0644)
+			cancel()
+		}
+	case ctlrunOtherAnalysing:
+		curve.at, curve.gate = 0, make(chan struct{})
+		curve.fire = cancel
+	case ctlrunOtherAnalysingE:
+		curve.at, curve.gate = 0, make(chan struct{})
+		curve.fail = true
+		curve.fire = func() { mu.Lock(); armed = true; mu.Unlock() }
 	case ctlrunStallAtMax, ctlrunStallLinger:
 		curve.konst = 255
 	case ctlrunStallWalk:
@@ -372,8 +413,60 @@ func ctlrunRun(ctx *Ctx, seq int, in ctlrunIn) (ctlrunObs, string, []string) {
 			obs.Ret, obs.Err = 1, err.Error()
 		}
 	}()
+	var bDone chan struct{}
+	var bCancel context.CancelFunc
+	var bCurve *ctlrunCurve
+	bStillAnalysing := false
+	if other {
+		waitUntil := func(cond func() bool, d time.Duration) bool {
+			dl := time.Now().Add(d)
+			for time.Now().Before(dl) {
+				mu.Lock()
+				ok := cond()
+				mu.Unlock()
+				if ok {
+					return true
+				}
+				time.Sleep(2 * time.Millisecond)
+			}
+			return false
+		}
+		// this controller regulates first (its start-up takes the initialisation lock for the PWM map too) ...
+		waitUntil(func() bool { return curve.n >= 2 }, 5*time.Second)
+		// ... then a second, not yet analysed fan starts and stays inside its initialisation sequence
+		bPwm, bEn := filepath.Join(dir, "b_pwm1"), filepath.Join(dir, "b_pwm1_enable")
+		os.WriteFile(bPwm, []byte("100"), 0644)
+		os.WriteFile(bEn, []byte("2"), 0644)
+		os.WriteFile(bRpmPath, []byte("1000"), 0644)
+		bpm := map[int]int{0: 0, 100: 100, 200: 200}
+		bfan, err := fans.NewFan(configuration.FanConfig{ID: fmt.Sprintf("ctlrunB%d", seq), Curve: "ctlrun_curve", PwmMap: &bpm,
+			HwMon: &configuration.HwMonFanConfig{PwmPath: bPwm, PwmEnablePath: bEn, RpmInputPath: bRpmPath}})
+		if err != nil {
+			panic(err)
+		}
+		bCurve = &ctlrunCurve{konst: 90}
+		bc := controller.VerifNewController(persistence.NewPersistence(filepath.Join(dbDir, "fan2go.db")), bfan, bCurve,
+			control_loop.NewDirectControlLoop(nil), 3*time.Millisecond)
+		var bctx context.Context
+		bctx, bCancel = context.WithCancel(context.Background())
+		bDone = make(chan struct{})
+		go func() {
+			defer close(bDone)
+			defer func() { _ = recover() }()
+			_ = bc.Run(bctx)
+		}()
+		waitUntil(func() bool { return bRpmReads >= 3 }, 5*time.Second)
+		close(curve.gate)
+	}
 	select {
 	case <-done:
+		if other {
+			select {
+			case <-bDone:
+			default:
+				bStillAnalysing = bCurve.n == 0
+			}
+		}
 	case <-time.After(time.Duration(ctx.Param("giveup_s", 6)) * time.Second):
 		cancel()
 		ctlrunKillChildren(dir) // a call stuck on a pipe held by an orphaned child comes back once the child is gone
@@ -395,6 +488,21 @@ func ctlrunRun(ctx *Ctx, seq int, in ctlrunIn) (ctlrunObs, string, []string) {
 	mu.Unlock()
 	obs.Evals = curve.n
 	obs.Mode, obs.Pwm = readDev()
+	if other {
+		// let the other fan settle, finish its analysis and stop it
+		mu.Lock()
+		holdB = false
+		mu.Unlock()
+		dl := time.Now().Add(10 * time.Second)
+		for bCurve.n < 1 && time.Now().Before(dl) {
+			time.Sleep(5 * time.Millisecond)
+		}
+		bCancel()
+		select {
+		case <-bDone:
+		case <-time.After(10 * time.Second):
+		}
+	}
 	if relDone != nil {
 		// whatever was in flight when the context was cancelled has been released; give it time to finish
 		select {
@@ -419,6 +527,9 @@ func ctlrunRun(ctx *Ctx, seq int, in ctlrunIn) (ctlrunObs, string, []string) {
 	}
 	if in.NoRpm {
 		tags = append(tags, "no-rpm-input")
+	}
+	if bStillAnalysing {
+		tags = append(tags, "other-fan-still-analysing")
 	}
 	if in.MaxPwm > 0 || stall {
 		tags = append(tags, "maxpwm-configured")
@@ -469,6 +580,12 @@ func init() {
 					for _, v := range [][2]int{{2, 0}, {5, 1}} {
 						jobs = append(jobs, ctlrunIn{Scn: scn, Exists: true, OrigMode: v[0], OrigPwm: rng.Pick([]int{77, 120}),
 							Top: 200, NoRpm: v[1] == 1 && scn == ctlrunErrLinger, LingerMs: ctx.Param("linger_ms", 1300)})
+						jt = append(jt, "generated")
+					}
+				}
+				for _, scn := range []int{ctlrunDbGone, ctlrunOtherAnalysing, ctlrunOtherAnalysingE} {
+					for _, om := range []int{2, 1} {
+						jobs = append(jobs, ctlrunIn{Scn: scn, Exists: true, OrigMode: om, OrigPwm: rng.Pick([]int{0, 77, 120}), Top: rng.Pick([]int{120, 200})})
 						jt = append(jt, "generated")
 					}
 				}
